@@ -50,8 +50,8 @@ pub fn gen_case(r: &mut Rng, out: &mut String) {
         for &(s, l) in &t {
             *per_chunk.entry(s >> 16).or_insert(0) += l as u64;
         }
-        if per_chunk.values().any(|&n| (4094..=4098).contains(&n)) && r.chance(1, 2) {
-            which = *r.pick(&[8u64, 8, 9]);
+        if per_chunk.values().any(|&n| (4094..=4098).contains(&n)) && r.chance(4, 5) {
+            which = *r.pick(&[8u64, 8, 8, 9]);
         }
         super::c04::produce(r, out, "b0", &t, which);
         writeln!(out, "dump b0").unwrap();
